@@ -536,6 +536,65 @@ the propagator answers "not UNSAT" and leaves `x1` unassigned; the repaired code
 theorem decideOrig_misses_unit : f4Run false = some none ∧ f4Run true = some (some false) := by
   decide
 
+/-! ## the executable history runner only visits reachable states -/
+
+/-- a command list is a valid history from `s` with `k` open decisions: pops match decisions,
+decided variables are in range -/
+def ValidFrom : Solver → Nat → List Cmd → Prop
+  | _, _, [] => True
+  | s, k, .pop :: cs => 0 < k ∧ ValidFrom s.pop (k - 1) cs
+  | s, k, .decide v p :: cs => v < s.numVars ∧
+      match s.decide ⟨v, p⟩ with
+      | .ok s' .unsat => ValidFrom s' k cs
+      | .ok s' _ => ValidFrom s' (k + 1) cs
+      | .error => True
+
+/-- every observation `runCmds` (hence `runHistoryOn`/`runHistory`, the functions diffed against
+the real `SATSolver`) emits on a valid history is the observation of a `Reach`able state, and is
+never `error` -/
+theorem runCmds_reach {cnf : Cnf} (hN : CnfNormal cnf) : ∀ (cmds : List Cmd) (s : Solver) (ds : List Lit),
+    Reach cnf s ds → ValidFrom s ds.length cmds →
+    ∀ o, o ∈ runCmds true s cmds →
+      ∃ s' ds' tag, Reach cnf s' ds' ∧ tag ≠ ObsRes.error ∧ o = observe tag s'
+  | [], _, _, _, _, o, ho => by simp [runCmds] at ho
+  | .pop :: cs, s, ds, hR, hV, o, ho => by
+    obtain ⟨hk, hV'⟩ := hV
+    have hdep : s.depth = ds.length + 2 := (reach_inv hR).1.stack.length
+    cases ds with
+    | nil => simp at hk
+    | cons d ds' =>
+      have hR' : Reach cnf s.pop ds' := .pop hR
+      unfold runCmds at ho
+      rw [if_neg (by rw [hdep]; simp)] at ho
+      rcases List.mem_cons.mp ho with rfl | ho
+      · exact ⟨s.pop, ds', .popped, hR', by simp, rfl⟩
+      · exact runCmds_reach hN cs s.pop ds' hR' (by simpa using hV') o ho
+  | .decide v p :: cs, s, ds, hR, hV, o, ho => by
+    obtain ⟨hv, hV'⟩ := hV
+    obtain ⟨s', r, hd⟩ := history_decide_total hN hR ⟨v, p⟩
+    unfold runCmds at ho
+    rw [if_neg (by omega)] at ho
+    have hd' : s.decideWith true ⟨v, p⟩ = .ok s' r := hd
+    rw [hd'] at ho
+    rw [hd] at hV'
+    simp only [] at ho
+    by_cases hr : r = .unsat
+    · subst hr
+      have hR' : Reach cnf s' ds := .decideUnsat hR hv hd
+      rcases List.mem_cons.mp ho with rfl | ho
+      · exact ⟨s', ds, .unsat, hR', by simp, rfl⟩
+      · exact runCmds_reach hN cs s' ds hR' hV' o ho
+    · have hR' : Reach cnf s' (⟨v, p⟩ :: ds) := .decide hR hv hd hr
+      have hV'' : ValidFrom s' (ds.length + 1) cs := by
+        cases r with
+        | unsat => exact absurd rfl hr
+        | sat => exact hV'
+        | unknown => exact hV'
+      rcases List.mem_cons.mp ho with rfl | ho
+      · refine ⟨s', _, _, hR', ?_, rfl⟩
+        cases r <;> simp at hr ⊢
+      · exact runCmds_reach hN cs s' _ hR' hV'' o ho
+
 /-! ## non-vacuity -/
 
 /-- `(¬x0 ∨ ¬x1 ∨ x2) ∧ (¬x2 ∨ x3) ∧ (x1 ∨ ¬x1 ∨ x1 ∨ x3)`, through `Cnf::new` -/
@@ -637,6 +696,7 @@ example : (match upClosure 10 exCnf (PModel.empty.set 0 true |>.set 2 false) wit
 #print axioms new_total_normal
 #print axioms history_decide_total
 #print axioms pop_restores
+#print axioms runCmds_reach
 #print axioms observables_eq
 #print axioms pop_keeps_watches
 #print axioms satflag_exact
